@@ -198,4 +198,10 @@ def split_array(data, f_sample_num=None, t_sample_num=None,
     if f_trim:
         split_data = list(filter(lambda A: A.shape[1] == f_sample_num,
                                  split_data))
+    if len(set(A.shape for A in split_data)) > 1:
+        # Ragged edges: tiles of different sizes can only be held as objects
+        split_array = np.empty(len(split_data), dtype=object)
+        for i, A in enumerate(split_data):
+            split_array[i] = A
+        return split_array
     return np.array(split_data)
